@@ -22,6 +22,9 @@ FieldChoices ==
     s  |-> {Sx(""), Sx("a"), Sx("multibyte"), Sx("L300")},
     e  |-> {En("Color.RED"), En("Color.BLUE")},
     z  |-> {En("Facing.NORTH"), En("Facing.SOUTH")},                              \* an enum whose first member has the value 0
+    o  |-> {En("Opp.NORTH"), En("Opp.SOUTH")},                                     \* a string-valued enum whose member names are each other's values
+    lo |-> {Node("list", "", <<En("Opp.NORTH"), En("Opp.SOUTH"), En("Opp.NORTH")>>)},
+    do |-> {Node("dict", "", <<KVt(En("Opp.NORTH"), I("1")), KVt(En("Opp.SOUTH"), I("2"))>>)},
     lz |-> {Node("list", "", <<En("Facing.NORTH"), En("Facing.SOUTH")>>)},
     dz |-> {Node("dict", "", <<KVt(En("Facing.NORTH"), I("0")), KVt(En("Facing.SOUTH"), I("1"))>>)},
     n  |-> {Inner("1", "a"), Inner("-1", "multibyte")},
